@@ -50,8 +50,15 @@ class C04(Prop):
         # in-memory layout of each chunk handed to cwrite (>= 8 bit only: the packers take contiguous 1-D input):
         # flat 1-D, strided 1-D view, C-ordered (k, C) matrix, transposed view of a (C, k) matrix
         layout = rng.choice(("flat", "flat", "strided", "2d", "T")) if nbits >= 8 else "flat"
+        vals = values_for(rng, n * C, min(nbits, 8) if dt == "uint8" else nbits)
+        if nbits == 32 and dt in ("int64", "float32", "float64") and rng.random() < 0.6:
+            # a 32-bit file holds float32: every float32-representable value must survive, negative ones and
+            # (from float arrays) fractional ones included
+            vals = [rng.randrange(-5000, 5000) for _ in range(n * C)]
+            if dt != "int64":
+                vals = [v / 8 for v in vals]
         return {"kind": "fil", "nbits": nbits, "C": C, "n": n, "dtype": dt, "parts": parts, "layout": layout,
-                "vals": values_for(rng, n * C, min(nbits, 8) if dt == "uint8" else nbits), "tsamp": rng.choice((64e-6, 1e-3)),
+                "vals": vals, "tsamp": rng.choice((64e-6, 1e-3)),
                 "tstart": rng.choice((58000.0, 59123.456789)), "dm": rng.choice((0.0, 56.7))}
 
     def _series_case(self, rng, kind):
@@ -268,9 +275,16 @@ class C04(Prop):
     def model_requests(self, case, obs):
         if case["kind"] != "fil":
             return []
-        vals = " ".join(str(v) for v in case["vals"])
         parts = " ".join(map(str, case["parts"]))
-        reqs = [f"C04 cwrite {case['nbits']} {case['dtype']} {case['C']} {len(case['parts'])} {parts} "
+        if case["nbits"] == 32:
+            # the model stores an opaque 32-bit word: the float32 bit pattern of the value, computed here
+            words = np.array(case["vals"], dtype=np.float64).astype(np.float32).view(np.uint32)
+            vals = " ".join(str(int(w)) for w in words)
+            op = "cwritew"
+        else:
+            vals = " ".join(str(v) for v in case["vals"])
+            op = "cwrite"
+        reqs = [f"C04 {op} {case['nbits']} {case['dtype']} {case['C']} {len(case['parts'])} {parts} "
                 f"{len(case['vals'])} {vals}"]
         if "file" in obs and obs.get("werr") is None:
             reqs.append(f"C04 readfil {obs['file']}")
